@@ -41,7 +41,15 @@ class XALAN_XERCESPARSERLIAISON_EXPORT XercesDOMSupport : public DOMSupport
 {
 public:
 
-    XercesDOMSupport(XercesParserLiaison&   theLiaison);
+    /**
+     * @param theLiaison        the liaison that creates the documents of this instance
+     * @param theSourceLiaison  an optional second liaison, only consulted (never modified):
+     *                          the one that owns a source document which was built before
+     *                          this instance existed
+     */
+    XercesDOMSupport(
+            XercesParserLiaison&        theLiaison,
+            const XercesParserLiaison*  theSourceLiaison = 0);
 
     virtual
     ~XercesDOMSupport();
@@ -63,7 +71,9 @@ public:
 
 private:
 
-    XercesParserLiaison&    m_liaison;
+    XercesParserLiaison&                m_liaison;
+
+    const XercesParserLiaison* const    m_sourceLiaison;
 };
 
 
